@@ -71,13 +71,23 @@ def ledger_step(prog):
 
 
 def sfl_validation(prog):
-    """the function of the bookkeeping that builds the automatic SfLA transactions (and validates a specified loss)"""
+    """the function of the bookkeeping, below the ledger step, that decides about a sale's superficial loss: the outermost function
+    whose call tree (inside portfolio::bookkeeping, closures included) builds the automatic SfLA transactions. When that work has
+    been split into helpers this is the function that calls them, not the helper holding the constructor."""
     ls = ledger_step(prog)
-    within = None
-    if ls is not None:
-        within = {g.name for g in prog.callees_closure([_origin(ls)]).values()} - {ls.name}
-    return _select(prog, lambda f: f.name.startswith('portfolio::bookkeeping::') and bool(_group_aggs(prog, f, r'TxActionSpecifics::Sfla$')),
-                   prefer='root', within=within)
+    if ls is None:
+        return None
+    below = {g.name: g for g in prog.callees_closure([_origin(ls)]).values()
+             if g.name != ls.name and g.name.startswith('portfolio::bookkeeping::') and g.kind in ('Fn', 'AssocFn')}
+
+    def tree(f):
+        return [f] + [g for g in prog.callees_closure([_origin(f)]).values() if g.name in below and g.name != f.name]
+    cands = [f for f in below.values() if any(_group_aggs(prog, g, r'TxActionSpecifics::Sfla$') for g in tree(f))]
+    inside = set()
+    for f in cands:
+        inside |= {g.name for g in tree(f)[1:]}
+    root = [f for f in cands if f.name not in inside]
+    return prog.fn(root[0].name) if len(root) == 1 else None
 
 
 def window_scan(prog, first_name, last_name):
